@@ -116,15 +116,28 @@ Proof.
   apply last_forallb; assumption.
 Qed.
 
+Lemma last_aname a : aname_ok a = true -> render_aname a <> [] /\ not_slash (last (render_aname a) 0%N).
+Proof.
+  intros Ha. destruct a as [n|d n|o ps]; cbn [aname_ok render_aname] in *.
+  - destruct (name_ok_all n Ha) as [Hne _]. split; [exact Hne|apply last_name; exact Ha].
+  - apply andb_true_iff in Ha. destruct Ha as [Hd Hn]. split; [discriminate|].
+    destruct n as [|x r].
+    + cbn [last]. unfold not_slash. chars.
+    + change (d :: x :: r) with ([d] ++ x :: r). rewrite last_app_ne by discriminate. apply last_name. exact Hn.
+  - apply andb_true_iff in Ha. destruct Ha as [Ho _]. split; [discriminate|].
+    change (o :: render_pieces o (closer o) ps ++ [closer o]) with ((o :: render_pieces o (closer o) ps) ++ [closer o]).
+    rewrite last_last. apply bracket_cases in Ho. destruct Ho as [-> | [-> | ->]]; reflexivity.
+Qed.
+
 Lemma last_render_attr a : dattr_ok a = true -> render_attr a <> [] /\ not_slash (last (render_attr a) 0%N).
 Proof.
   intros Ha. destruct (dattr_ok_parts a Ha) as (Hne & Hws & Hn & Hv).
-  destruct (name_ok_all _ Hn) as [Hnn _].
+  destruct (last_aname _ Hn) as [Hnn Hnl].
   split.
   { unfold render_attr. intros E. apply app_eq_nil in E. destruct E as [E _]. contradiction. }
   unfold render_attr, value_part.
   destruct (da_val a) as [|q body|body|ps]; cbn [value_text aval_ok] in *.
-  - rewrite app_nil_r. rewrite last_app_ne by exact Hnn. apply last_name. exact Hn.
+  - rewrite app_nil_r. rewrite last_app_ne by exact Hnn. exact Hnl.
   - rewrite app_assoc. change (c_eq :: q :: body ++ [q]) with ((c_eq :: q :: body) ++ [q]).
     rewrite app_assoc. rewrite last_last.
     unfold quoted_ok in Hv. apply andb_true_iff in Hv. destruct Hv as [Hq _]. unfold not_slash. chars.
@@ -243,18 +256,18 @@ Proof.
     + rewrite <- !app_assoc. rewrite (app_assoc pre).
       rewrite <- Nat2N.inj_add, <- app_length.
       rewrite <- (Nat2N.inj_add (length (pre ++ da_ws a))).
-      pose proof (sliceN_middle (pre ++ da_ws a) (da_name a)) as S1. rewrite <- Nat2N.inj_add in S1. apply S1.
+      pose proof (sliceN_middle (pre ++ da_ws a) (render_aname (da_name a))) as S1. rewrite <- Nat2N.inj_add in S1. apply S1.
     + destruct (value_text (da_val a)) as [t|]; [|exact I].
       rewrite <- !app_assoc. cbn [app].
-      change (pre ++ da_ws a ++ da_name a ++ c_eq :: t ++ render_attrs l ++ post)
-        with (pre ++ da_ws a ++ da_name a ++ [c_eq] ++ t ++ render_attrs l ++ post).
-      rewrite (app_assoc (da_name a)). rewrite (app_assoc (da_ws a)). rewrite (app_assoc pre).
-      pose proof (sliceN_middle (pre ++ da_ws a ++ da_name a ++ [c_eq]) t (render_attrs l ++ post)) as S1.
+      change (pre ++ da_ws a ++ render_aname (da_name a) ++ c_eq :: t ++ render_attrs l ++ post)
+        with (pre ++ da_ws a ++ render_aname (da_name a) ++ [c_eq] ++ t ++ render_attrs l ++ post).
+      rewrite (app_assoc (render_aname (da_name a))). rewrite (app_assoc (da_ws a)). rewrite (app_assoc pre).
+      pose proof (sliceN_middle (pre ++ da_ws a ++ render_aname (da_name a) ++ [c_eq]) t (render_attrs l ++ post)) as S1.
       rewrite !app_length in S1. cbn [length] in S1.
-      replace (N.of_nat (length pre) + N.of_nat (length (da_ws a)) + N.of_nat (length (da_name a)) + 1)%N
-        with (N.of_nat (length pre + (length (da_ws a) + (length (da_name a) + 1)))) by lia.
-      replace (N.of_nat (length pre + (length (da_ws a) + (length (da_name a) + 1))) + N.of_nat (length t))%N
-        with (N.of_nat (length pre + (length (da_ws a) + (length (da_name a) + 1))) + N.of_nat (length t))%N by lia.
+      replace (N.of_nat (length pre) + N.of_nat (length (da_ws a)) + N.of_nat (length (render_aname (da_name a))) + 1)%N
+        with (N.of_nat (length pre + (length (da_ws a) + (length (render_aname (da_name a)) + 1)))) by lia.
+      replace (N.of_nat (length pre + (length (da_ws a) + (length (render_aname (da_name a)) + 1))) + N.of_nat (length t))%N
+        with (N.of_nat (length pre + (length (da_ws a) + (length (render_aname (da_name a)) + 1))) + N.of_nat (length t))%N by lia.
       exact S1.
   - unfold render_attrs. cbn [flat_map]. fold (render_attrs l). rewrite <- app_assoc. rewrite (app_assoc pre).
     replace (N.of_nat (length pre) + N.of_nat (length (render_attr a)))%N with (N.of_nat (length (pre ++ render_attr a)))
